@@ -18,7 +18,7 @@
    the CURRENT coordinates with an analytic potential.
 
    Source anchors are quoted as species.py:LINE for /repo/autode/species/species.py (tree after
-   commits 2fc12a5, ab13883, 4492722). *)
+   commits 2fc12a5, ab13883, 4492722, 92378a7, 7a0359e, efc6d55, 8033d29, 6e0c770). *)
 From Coq Require Import List Bool Arith ZArith Lia.
 Import ListNotations.
 
@@ -101,7 +101,14 @@ Definition set_coords (rows : nat) (big pure : bool) (s : sp) : sp * out :=
   else if pure then (s, OOk)                                   (* translated: everything kept    *)
   else (bump_frame (clear_gh s), OOk).                         (* :287-288 rotated: E kept       *)
 
+(* coordinates whose total size is not a multiple of 3: `np.asarray(v).reshape((-1, 3))` (species.py:276) raises
+   ValueError BEFORE anything is compared or cleared *)
+Definition set_coords_ragged (s : sp) : sp * out := (s, OErr ValueErr).
+
 (* ---------- atoms setter, species.py:227-252 (value is not None) ----------
+   (`atoms = None` (species.py:236-239) drops the atoms and clears every result; a species without atoms is NOT
+   modelled - the harness checks that case directly, key Species.atoms|none-keeps-results) *)
+(* ---------- atoms setter, continued ----------
    same length and labels -> coordinates setter with the coordinates of the new atoms (:243-246),
    otherwise the atoms are replaced and everything is cleared (:249-250).  The molecular graph is
    NOT touched by the setter. *)
@@ -141,8 +148,8 @@ Definition set_grad (a : garg) (s : sp) : sp * out :=
   | GNone => (mkSp (labels s) (order s) (geom s) (frame s) (en s) None (hess s) (hcache s)
                    (graph s) (mult s), OOk)
   | GArr sh =>
-      (* :419-427  shape != (n,3) -> value.reshape((n,3)), which succeeds iff the size is 3n *)
-      if prod sh =? 3 * n_atoms s then
+      (* :420-432  shape (n,3) is taken as it is, shape (3n,) is reshaped, every other shape -> ValueError *)
+      if nl_eqb sh [n_atoms s; 3] || nl_eqb sh [3 * n_atoms s] then
         (mkSp (labels s) (order s) (geom s) (frame s) (en s) (Some (cur s)) (hess s)
               (hcache s) (graph s) (mult s), OOk)
       else (s, OErr ValueErr)
@@ -158,7 +165,10 @@ Definition set_hess (a : harg) (s : sp) : sp * out :=
   | HArr sh =>
       (* :373-379 required_shape = (3n, 3n) *)
       if nl_eqb sh [3 * n_atoms s; 3 * n_atoms s] then
-        (* :387-392 a NEW Hessian object with atoms=self.atoms: nothing cached yet *)
+        (* numpy array: a NEW Hessian object with atoms=self.atoms; a Hessian INSTANCE: `deepcopy(value)`
+           (Hessian.__deepcopy__ builds a new object without memoised values; its own frame atoms are kept as a
+           private copy, self.atoms attached when it has none; rotate / reorder_atoms move such frame atoms along).
+           Either way: a new object owned by this species, nothing cached yet (commit 8033d29). *)
         (mkSp (labels s) (order s) (geom s) (frame s) (en s) (grad s) (Some (cur s)) None
               (graph s) (mult s), OOk)
       else (s, OErr ValueErr)
@@ -234,6 +244,7 @@ Definition set_graph (e : list (nat * nat)) (s : sp) : sp * out :=
 Inductive op :=
 | SetAtoms (ls : list nat) (big pure : bool)
 | SetCoords (rows : nat) (big pure : bool)
+| SetCoordsRagged
 | Translate | Rotate | Centre
 | SetEnergy (some : bool)
 | SetGrad (a : garg)
@@ -250,6 +261,7 @@ Definition step (s : sp) (o : op) : sp * out :=
   match o with
   | SetAtoms ls big pure => set_atoms ls big pure s
   | SetCoords rows big pure => set_coords rows big pure s
+  | SetCoordsRagged => set_coords_ragged s
   | Translate => translate s
   | Rotate => rotate s
   | Centre => centre s
